@@ -11,6 +11,12 @@ from vf import core
 from checks import wirelib
 
 
+CORPUS = [
+    # VPLS MP_REACH: a BGP-AD NLRI (length 12) followed by five octets -- parsed into an NLRI without RD (689... fix)
+    "ffffffffffffffffffffffffffffffff003d020000002640010100400200800e1c001941040a00000100000c0102030405060708090a0b0c0000000000",
+]
+
+
 def line_of(c):
     if c["op"] == "fuzz":
         return "fuzz %d %d %s" % (1 if c["ap"] else 0, 1 if c["as2"] else 0, c["bytes"].hex())
@@ -87,6 +93,10 @@ def run(ctx):
     for ap, b in seeds[:ctx.scale(400, 5000)]:
         for t in (b"\x00", b"\x18\x0a\x00\x00", KEEPALIVE, b"\xff" * 5):
             cases.append({"op": "dec", "ap": ap, "bytes": b + t})
+    # minimised inputs of earlier findings: run on every change
+    for h in CORPUS:
+        for ap in (False, True):
+            cases.append({"op": "fuzz", "ap": ap, "as2": False, "bytes": bytes.fromhex(h)})
     nmut = ctx.scale(20000, 600000)
     for _ in range(nmut):
         ap, b = rng.choice(seeds + [(False, x) for x in rich] * 20) if seeds else (False, b"")
